@@ -19,6 +19,7 @@ REPO = os.environ.get('VERIF_REPO', '/repo')
 REPO_SRC = os.path.join(REPO, 'src')
 SCRATCH = os.path.join(VERIF, '.scratch')
 NCPU = int(os.environ.get('VERIF_JOBS', '16'))
+PER_FILE_TIMEOUT = int(os.environ.get('VERIF_COQC_TIMEOUT', '900'))   # a proof that hangs on a changed model counts as broken
 CHECKER_CMD = ("coq_makefile -f _CoqProject -o Makefile && make -j16 Props/<ID>.vo  (Coq 8.16.1, full .vo build; "
                "Print Assumptions under every theorem of Props/<ID>.v)")
 
@@ -72,11 +73,40 @@ class Lock:
 
 
 def _ensure_makefile():
+    """_CoqProject lists every .v under coq/ (except Cases/); it is regenerated from the directory content, so
+    nobody edits it by hand; the Makefile is regenerated whenever the list changes."""
     mk = os.path.join(COQ, 'Makefile')
     cp = os.path.join(COQ, '_CoqProject')
+    files = []
+    for root, dirs, fs in os.walk(COQ):
+        dirs[:] = sorted(d for d in dirs if d not in ('Cases',))
+        for f in sorted(fs):
+            if f.endswith('.v') and not f.startswith('.'):
+                files.append(os.path.relpath(os.path.join(root, f), COQ))
+    text = ('-Q . PG\n-arg -w -arg -notation-overridden,-deprecated-syntactic-definition,-deprecated-hint-without-locality,'
+            '-deprecated-instance-without-locality\n' + '\n'.join(sorted(files)) + '\n')
+    if not os.path.exists(cp) or open(cp).read() != text:
+        open(cp, 'w').write(text)
     if not os.path.exists(mk) or os.path.getmtime(mk) < os.path.getmtime(cp):
         subprocess.run(['coq_makefile', '-f', '_CoqProject', '-o', 'Makefile'], cwd=COQ, check=True,
                        capture_output=True)
+
+
+class RepoLock:
+    """checks read /repo (shared lock); tools/seed_eval.py, which applies a patch to /repo, takes it exclusively"""
+
+    def __init__(self, exclusive=False):
+        self.ex = exclusive
+
+    def __enter__(self):
+        self.f = open(os.path.join(VERIF, '.repo.lock'), 'w')
+        if not os.environ.get('VERIF_NOLOCK'):
+            fcntl.flock(self.f, fcntl.LOCK_EX if self.ex else fcntl.LOCK_SH)
+        return self
+
+    def __exit__(self, *a):
+        fcntl.flock(self.f, fcntl.LOCK_UN)
+        self.f.close()
 
 
 _DECL = re.compile(r'^\s*(?:Local\s+|Global\s+)?(Theorem|Lemma|Example|Corollary|Fact|Remark|Proposition|Definition|Fixpoint)\s+([A-Za-z_][\w\']*)')
@@ -109,7 +139,7 @@ def coq_build(targets, timeout=3000):
     t0 = time.time()
     with Lock():
         _ensure_makefile()
-        p = subprocess.run(['timeout', str(timeout), 'make', '-j%d' % NCPU, '-k'] + list(targets), cwd=COQ,
+        p = subprocess.run(['timeout', str(timeout), 'make', '-j%d' % NCPU, '-k', 'COQC=timeout %d coqc' % PER_FILE_TIMEOUT] + list(targets), cwd=COQ,
                            capture_output=True, text=True)
     log = p.stdout + p.stderr
     ok = p.returncode == 0
